@@ -267,8 +267,9 @@ def run_tree(env, tidx, tree, sh):
     # docker cannot be spawned while the first build cleans up; it is back for the second, independent build of the same process,
     # whose own resources must be cleaned up as always (the first build's cannot be - they are not judged)
     if len(scenario["builds"]) > 1:
-        first_img = testrun.decode(next(e for e in log if e["kind"] == "pack build"))["image"]
-        b2 = next((e["seq"] for e in log if e["kind"] == "pack build" and testrun.decode(e)["image"] != first_img), None)
+        first_build = next((e for e in log if e["kind"] == "pack build"), None)
+        first_img = testrun.decode(first_build)["image"] if first_build else None
+        b2 = next((e["seq"] for e in log if first_build and e["kind"] == "pack build" and testrun.decode(e)["image"] != first_img), None)
         if b2 is not None and b2 >= 3:
             faults.append({"kind": "docker-gone", "after_seq": b2 - 3})
     faults += [{"kind": "panic", "point": p} for p in count_panic_points(body)]
